@@ -134,13 +134,18 @@ Proof.
   apply IH. cbn [c_rem c_rest]. rewrite H. cbn [blen]. lia.
 Qed.
 
-Lemma MidQ_adv_by s0 X ad tn en l n : MidQ s0 X ad tn en l -> MidQ s0 (st_adv_by X n) ad tn en (skipn_N (N.to_nat n) l).
+Lemma MidQ_adv_by s0 X ad tn en l n : no_nl (firstn (N.to_nat n) l) = true ->
+  MidQ s0 X ad tn en l -> MidQ s0 (st_adv_by X n) ad tn en (skipn_N (N.to_nat n) l).
 Proof.
-  intros [C L1 L2 T E R M L]. destruct (st_adv_by_spec X n) as (R1 & F1 & N1).
+  intros Hnl [C L1 L2 T E R M L]. destruct (st_adv_by_spec X n) as (R1 & F1 & N1).
+  assert (Hlp : lines_pos (st_adv_by X n)) by (apply lines_pos_adv_by; [exact L|rewrite R; exact Hnl]).
   unfold st_adv_by, exec in *. cbn [andb] in *. constructor; try assumption.
   - cbn [s_cur set]. rewrite advance_by_loop_rest. rewrite R. reflexivity.
   - cbn [s_cur set]. rewrite adv_by_loop_rem; [|rewrite R; exact M]. rewrite advance_by_loop_rest, R. reflexivity.
 Qed.
+
+Lemma is_amp_not_nl x : is_amp x = true -> (x =? NL) = false.
+Proof. intros H. destruct (N.eqb_spec x NL) as [->|]; [vm_compute in H; discriminate H|reflexivity]. Qed.
 
 Lemma macro_free_tail c r : macro_free (c :: r) = true -> macro_free r = true.
 Proof. cbn [macro_free]. intros H. apply andb_true_iff in H. exact (proj2 H). Qed.
@@ -214,7 +219,9 @@ Proof.
     rewrite (amp_run_not_macro r Hmf). cbv iota beta. unfold advance_by. cbn [bindP do run]. rewrite ex_advance_by. cbn [run].
     set (nn := count_while is_amp (c_amp :: r)) in *.
     pose proof (count_amp_pos r) as Hp. fold nn in Hp.
-    pose proof (MidQ_adv_by _ _ _ _ _ _ nn HM) as HM1.
+    assert (Hnn : no_nl (firstn (N.to_nat nn) (c_amp :: r)) = true).
+    { replace (N.to_nat nn) with (N.to_nat nn + 0)%nat by lia. unfold nn. apply (no_nl_while is_amp is_amp_not_nl). reflexivity. }
+    pose proof (MidQ_adv_by _ _ _ _ _ _ nn Hnn HM) as HM1.
     assert (Hsrc' : s_src s0 = P ++ (pend ++ firstn (N.to_nat nn) (c_amp :: r)) ++ skipn_N (N.to_nat nn) (c_amp :: r)).
     { rewrite Hsrc. rewrite <- app_assoc. f_equal. f_equal. apply firstn_skipn_N. }
     assert (Hlis1 : last_is_start (st_adv_by X nn) = true).
@@ -234,10 +241,10 @@ Proof.
       2:{ unfold peek_next. change (c_rest (s_cur (scrub X))) with (c_rest (s_cur X)). rewrite (mq_rest _ _ _ _ _ _ HM).
           symmetry. exact (pct_not_macro r Hmf). }
       unfold advance_, ret. cbn [bindP do run]. rewrite (ex_advance X c_pct r (mq_rest _ _ _ _ _ _ HM)). cbn [run bindP do].
-      apply Hone; [apply MidQ_adv; exact HM|exact Hlis].
+      apply Hone; [apply MidQ_adv; [reflexivity|exact HM]|exact Hlis].
     + destruct (x =? NL) eqn:En.
       * unfold advance_, add_line, ret. cbn [bindP do run]. rewrite (ex_advance X x r (mq_rest _ _ _ _ _ _ HM)). cbn [run bindP do]. rewrite ex_add_line. cbn [run].
-        apply Hone; [apply MidQ_add_line; apply MidQ_adv; exact HM|exact Hlis].
+        apply Hone; [apply MidQ_nl; [exact En|exact HM]|exact Hlis].
       * destruct (x =? c_dquote) eqn:Eq.
         -- apply N.eqb_eq in Eq. subst x. unfold peek_next. change (c_rest (s_cur (scrub X))) with (c_rest (s_cur X)). rewrite (mq_rest _ _ _ _ _ _ HM).
            destruct r as [|y r'].
@@ -249,7 +256,7 @@ Proof.
               ** (* a doubled quote *)
                  apply N.eqb_eq in Ey. subst y.
                  unfold advance_, ret. cbn [bindP do run]. rewrite (ex_advance X c_dquote (c_dquote :: r') (mq_rest _ _ _ _ _ _ HM)). cbn [run bindP do].
-                 pose proof (MidQ_adv _ _ _ _ _ _ _ HM) as HM1. set (X1 := st_adv X c_dquote (c_dquote :: r')) in *.
+                 pose proof (MidQ_adv _ _ _ _ _ _ _ (eq_refl : (c_dquote =? NL) = false) HM) as HM1. set (X1 := st_adv X c_dquote (c_dquote :: r')) in *.
                  destruct (cfgq_src s0 X1 (mq_cfg _ _ _ _ _ _ HM1)) as [Hs1 _].
                  assert (Hcb1 : cur_byte X1 = blen P + blen (pend ++ [c_dquote])).
                  { rewrite (MidQ_cur_byte _ _ _ _ _ _ HM1). rewrite Hlen, Hsrc. rewrite !blen_app. cbn [blen]. lia. }
@@ -258,7 +265,7 @@ Proof.
                  rewrite (ex_addlit_src_cur X1 le (pend ++ [c_dquote]) Hslice). cbn [run].
                  pose proof (MidQ_addlit _ _ _ _ _ _ (pend ++ [c_dquote]) HM1) as HM2. set (X2 := st_addlit X1 (pend ++ [c_dquote])) in *.
                  rewrite (ex_advance X2 c_dquote r' (mq_rest _ _ _ _ _ _ HM2)). cbn [run bindP do]. rewrite ex_get. cbn [run].
-                 pose proof (MidQ_adv _ _ _ _ _ _ _ HM2) as HM3. set (X3 := st_adv X2 c_dquote r') in *.
+                 pose proof (MidQ_adv _ _ _ _ _ _ _ (eq_refl : (c_dquote =? NL) = false) HM2) as HM3. set (X3 := st_adv X2 c_dquote r') in *.
                  assert (Hsrc3 : s_src s0 = (P ++ pend ++ [c_dquote; c_dquote]) ++ [] ++ r') by (rewrite Hsrc, <- !app_assoc; reflexivity).
                  assert (Hlis3 : last_is_start X3 = true).
                  { unfold last_is_start, last_tok_type, last_tok in *. rewrite (mq_toks _ _ _ _ _ _ HM3). rewrite <- (mq_toks _ _ _ _ _ _ HM). exact Hlis. }
@@ -280,7 +287,7 @@ Proof.
                  cbn [q_st q_ad q_P q_closed q_k q_pend]. replace (k - k) with 0 by lia. cbn [N.to_nat skipn_N].
                  subst. split; [reflexivity|]. split; [exact HM|]. split; [exact Hsrc|]. split; [exists (y :: r'); reflexivity|exact Hlis].
         -- unfold advance_, ret. cbn [bindP do run]. rewrite (ex_advance X x r (mq_rest _ _ _ _ _ _ HM)). cbn [run bindP do].
-           apply Hone; [apply MidQ_adv; exact HM|exact Hlis].
+           apply Hone; [apply MidQ_adv; [exact En|exact HM]|exact Hlis].
 Qed.
 
 
@@ -310,7 +317,7 @@ Proof.
     - cbn [blen]. rewrite N.add_0_r. reflexivity.
     - exact Hr.
     - exact Hrem.
-    - exact Hl. }
+    - unfold s0. apply lines_pos_start. exact Hl. }
   assert (Hlen0 : s_srclen s0 = blen (s_src s0)) by exact Hlen.
   assert (Hsrc0 : s_src s0 = P ++ [] ++ l) by exact Hsrc.
   assert (Hct : s_ct_byte s0 = blen P).
@@ -365,7 +372,7 @@ Proof.
           apply andb_true_iff in Hmf. destruct Hmf as [Hmf _]. apply negb_true_iff, orb_false_iff in Hmf. exact (proj2 Hmf). }
         rewrite Hnn. unfold advance_, ret. cbn [bindP do run]. rewrite (ex_advance s0 c_pct r' Hr). cbn [run bindP do].
         rewrite run_str_text.
-        pose proof (MidQ_adv _ _ _ _ _ _ _ M0) as M1.
+        pose proof (MidQ_adv _ _ _ _ _ _ _ (eq_refl : (c_pct =? NL) = false) M0) as M1.
         assert (Hsrc1 : s_src s0 = P ++ ([] ++ [c_pct]) ++ r') by exact Hsrc.
         pose proof (dq_run s0 Hlen0 (S (List.length r')) r' (st_adv s0 c_pct r') [] ([] ++ [c_pct]) P (0 + 1) F (w_litlen (s_buf s0)) (s_ct_byte s0) []
                       ltac:(lia) ltac:(cbn [List.length] in Hf; lia) (macro_free_tail _ _ Hmf) M1 Hsrc1 ltac:(cbn [blen]; lia) Hct Hlis0) as Ht1.
@@ -418,8 +425,12 @@ Qed.
 Lemma MidQ_emit_error s0 X ad tn en rr k : MidQ s0 X ad tn en rr -> MidQ s0 (Core.emit_error X k) ad tn (prep_error X k :: en) rr.
 Proof.
   intros [C L1 L2 T E R M L]. constructor; try assumption.
-  change (s_errs (Core.emit_error X k)) with (prep_error X k :: s_errs X). rewrite E. reflexivity.
+  - change (s_errs (Core.emit_error X k)) with (prep_error X k :: s_errs X). rewrite E. reflexivity.
+  - apply lines_pos_error. exact L.
 Qed.
+
+Lemma lines_pos_upd' X t0 ts0 ch ty pl : lines_pos X -> lines_pos (st_upd' X t0 ts0 ch ty pl).
+Proof. exact (fun H => H). Qed.
 
 Section DqTail.
   Variable bb : N.
@@ -501,7 +512,7 @@ Section DqTail.
     assert (Hnil : q_ad R = [] -> fst plain = []) by (intros E; subst plain; rewrite E; reflexivity).
     clearbody XP plain. clear Hres.
     rewrite Hrun0. clear Hrun0.
-    pose proof (MidQ_adv _ _ _ _ _ _ _ MP) as MQ. set (XQ := st_adv XP c_dquote rest'') in *.
+    pose proof (MidQ_adv _ _ _ _ _ _ _ (eq_refl : (c_dquote =? NL) = false) MP) as MQ. set (XQ := st_adv XP c_dquote rest'') in *.
     pose proof (MidQ_suffix _ _ _ _ _ _ MQ) as ME. fold extra in ME.
     pose proof (run_ending XQ rest'' (mq_rest _ _ _ _ _ _ MQ)) as Hend. fold ty in Hend.
     set (Xe := st_suffix XQ rest'') in *.
@@ -626,7 +637,7 @@ Section DqClass.
     w_lit (s_buf s0) = w_lit (s_buf s) -> w_litlen (s_buf s0) = w_litlen (s_buf s) ->
     s_cp s0 = None -> s_mnl s0 = 0 -> s_pstat s0 = [true] ->
     MidQ s0 Y added [] en rr ->
-    InvPos text Z ->
+    InvPos text Z -> lines_pos Z ->
     s_buf Z = s_buf (st_upd' Y t0 (w_toks (s_buf s)) CH_DEFAULT ty pl) ->
     s_cur Z = s_cur Y -> s_modes Z = [MDefault] ->
     s_cp Z = s_cp Y -> s_mnl Z = s_mnl Y -> s_pstat Z = s_pstat Y ->
@@ -634,7 +645,7 @@ Section DqClass.
     c_rest (s_cur Z) = rr /\
     map (tv bb) (w_toks (s_buf Z)) = (ty, CH_DEFAULT, cur_byte s + bb, pl) :: map (tv bb) (w_toks (s_buf s)).
   Proof.
-    intros HOC Ht0 Hb0 Hlit0 Hll0 Hcp0 Hmnl0 Hps0 MY IZ Zbuf Zcur Zmodes Zcp Zmnl Zps.
+    intros HOC Ht0 Hb0 Hlit0 Hll0 Hcp0 Hmnl0 Hps0 MY IZ LZ Zbuf Zcur Zmodes Zcp Zmnl Zps.
     destruct (cfgq_fields _ _ (mq_cfg _ _ _ _ _ _ MY)) as (C1 & C2 & C3 & C4 & C5 & C6).
     split; [|split].
     - constructor.
@@ -648,7 +659,7 @@ Section DqClass.
         rewrite (mq_lit _ _ _ _ _ _ MY), Hlit0, (oc_lit _ _ _ HOC). apply utf8_push_spec.
       + rewrite Zbuf. change (w_litlen (s_buf Y) = rs_litlen rs + blen added).
         rewrite (mq_litlen _ _ _ _ _ _ MY), Hll0, (oc_litlen _ _ _ HOC). reflexivity.
-      + destruct (mq_lines _ _ _ _ _ _ MY) as [q Hq]. exists q. rewrite Zbuf. exact Hq.
+      + exact LZ.
     - rewrite Zcur. exact (mq_rest _ _ _ _ _ _ MY).
     - rewrite Zbuf. cbn [st_upd' s_buf w_toks set map tv t_type t_chan t_byte t_payload]. rewrite Hb0. reflexivity.
   Qed.
@@ -697,7 +708,8 @@ Section DqClass.
     assert (ISB : InvPos text SB) by exact (InvPos_iters SA _ ISA).
     assert (HmB : s_modes SB = MStringExpr true :: [MDefault]).
     { change (s_modes SB) with (MStringExpr true :: s_modes s). rewrite (oc_modes _ _ _ HOC). reflexivity. }
-    assert (HlB : lines_pos SB) by exact (oc_lines _ _ _ HOC).
+    assert (HlB : lines_pos SB).
+    { unfold SB, SA, si. apply lines_pos_iters, lines_pos_dqstart, lines_pos_iters. exact (oc_lines _ _ _ HOC). }
     assert (HrB : c_rest (s_cur SB) = c' :: r') by reflexivity.
     assert (HremB : c_rem (s_cur SB) = blen (c' :: r')).
     { change (c_rem (s_cur SB)) with (c_rem (s_cur s) - utf8_len c_dquote). rewrite Hrem. cbn [blen]. lia. }
@@ -756,7 +768,7 @@ Section DqClass.
     (* what every way of ending the literal has in common *)
     assert (Hgen : forall ty total added pl ks Y en rr Z,
               run false (lex_token F msep c') SB = Done tt Z ->
-              MidQ s0 Y added [] en rr -> rr = skipn_N (N.to_nat total) (c_dquote :: l') -> 2 <= total ->
+              MidQ s0 Y added [] en rr -> rr = skipn_N (N.to_nat total) (c_dquote :: l') -> 2 <= total -> lines_pos Z ->
               s_buf Z = s_buf (st_upd' Y t0 (w_toks (s_buf s)) CH_DEFAULT ty pl) -> s_cur Z = s_cur Y -> s_modes Z = [MDefault] ->
               s_cp Z = s_cp Y -> s_mnl Z = s_mnl Y -> s_pstat Z = s_pstat Y ->
               (s_iters Z, s_aborted Z) = (s_iters Y, s_aborted Y) ->
@@ -772,9 +784,9 @@ Section DqClass.
                 (s_iters s + N.of_nat kk <= limit ->
                  forall f last, exists last',
                    run false (main_loop F msep limit (kk + f) last) s = run false (main_loop F msep limit f last') s')).
-    { intros ty total added pl ks Y en rr Z HZ MY Err Htot Zbuf Zcur Zmodes Zcp Zmnl Zps Zctr Zerrs.
+    { intros ty total added pl ks Y en rr Z HZ MY Err Htot LZ Zbuf Zcur Zmodes Zcp Zmnl Zps Zctr Zerrs.
       assert (IZ : InvPos text Z) by exact (InvPos_run text _ SB tt Z ISB HZ).
-      destruct (dq_close s rs s0 Y added en rr Z ty pl t0 HOC Ht0 eq_refl Hlit0 Hll0 Hcp0 Hmnl0 Hps0 MY IZ Zbuf Zcur Zmodes Zcp Zmnl Zps)
+      destruct (dq_close s rs s0 Y added en rr Z ty pl t0 HOC Ht0 eq_refl Hlit0 Hll0 Hcp0 Hmnl0 Hps0 MY IZ LZ Zbuf Zcur Zmodes Zcp Zmnl Zps)
         as (OZ & RZ & TZ).
       destruct (cfgq_fields _ _ (mq_cfg _ _ _ _ _ _ MY)) as (_ & _ & _ & _ & C5 & _).
       pose proof (f_equal (fun t => fst (fst t)) (eq_trans C5 Hctr0)) as Hi. pose proof (f_equal (fun t => snd (fst t)) (eq_trans C5 Hctr0)) as Ha.
@@ -841,7 +853,8 @@ Section DqClass.
                      run false (main_loop F msep limit (kk + f) last) s = run false (main_loop F msep limit f last') s')).
       { intros added pl ks Y en HrunT MY Hen Hks.
         apply (Hgen ty total added pl ks Y en _ (st_pop (st_upd' Y t0 (w_toks (s_buf s)) CH_DEFAULT ty pl) [MDefault])
-                 ltac:(rewrite Hrun2; exact HrunT) MY Hskip ltac:(subst total; lia) eq_refl eq_refl eq_refl eq_refl eq_refl eq_refl eq_refl).
+                 ltac:(rewrite Hrun2; exact HrunT) MY Hskip ltac:(subst total; lia)
+                 ltac:(apply lines_pos_pop, lines_pos_upd'; exact (mq_lines _ _ _ _ _ _ MY)) eq_refl eq_refl eq_refl eq_refl eq_refl eq_refl eq_refl).
         change (s_errs (st_pop (st_upd' Y t0 (w_toks (s_buf s)) CH_DEFAULT ty pl) [MDefault])) with (s_errs Y).
         rewrite (mq_errs _ _ _ _ _ _ MY), map_app, Hen. f_equal.
         destruct ks as [|e1 [|e2 ks']]; [reflexivity|reflexivity|cbn [List.length] in Hks; lia]. }
@@ -888,7 +901,8 @@ Section DqClass.
       { intros added pl Y HrunY MYY.
         apply (Hgen T_StringLiteral (1 + k) added pl [E_UnterminatedStringLiteral] Y [] []
                  (st_pop (Core.emit_error (st_upd' Y t0 (w_toks (s_buf s)) CH_DEFAULT T_StringLiteral pl) E_UnterminatedStringLiteral) [MDefault])
-                 ltac:(rewrite Hrun2; exact HrunY) MYY Hskip ltac:(lia) eq_refl eq_refl eq_refl eq_refl eq_refl eq_refl eq_refl).
+                 ltac:(rewrite Hrun2; exact HrunY) MYY Hskip ltac:(lia)
+                 ltac:(apply lines_pos_pop, lines_pos_error, lines_pos_upd'; exact (mq_lines _ _ _ _ _ _ MYY)) eq_refl eq_refl eq_refl eq_refl eq_refl eq_refl eq_refl).
         change (s_errs (st_pop (Core.emit_error (st_upd' Y t0 (w_toks (s_buf s)) CH_DEFAULT T_StringLiteral pl) E_UnterminatedStringLiteral) [MDefault]))
           with (prep_error (st_upd' Y t0 (w_toks (s_buf s)) CH_DEFAULT T_StringLiteral pl) E_UnterminatedStringLiteral :: s_errs Y).
         rewrite (mq_errs _ _ _ _ _ _ MYY). reflexivity. }
